@@ -835,7 +835,17 @@ float8 = [
     _float8_e5m2,
     _float8_e5m2fnuz,
 ]
-floats = float8 + [_bfloat16, _float16, _float32, _float64, _float96, _float128]
+# Other low-precision floating point types of `ml_dtypes` (some of which are exposed by
+# JAX): still "any floating point", even without a precision-specific class of their own.
+_other_small_floats = [
+    "float8_e3m4",
+    "float8_e4m3",
+    "float8_e8m0fnu",
+    "float6_e2m3fn",
+    "float6_e3m2fn",
+    "float4_e2m1fn",
+]
+floats = float8 + _other_small_floats + [_bfloat16, _float16, _float32, _float64, _float96, _float128]
 complexes = [_complex64, _complex128, _complex192, _complex256]
 
 # We match NumPy's type hierarachy in what types to provide. See the diagram at
